@@ -326,3 +326,56 @@ Proof.
   destruct Ho as [<-|[<-|[]]]; vm_compute in Hs; destruct Hs as [<-|[<-|[]]];
     try (exfalso; apply Hne; reflexivity); left; reflexivity.
 Qed.
+
+(* ---------- the digest-auth re-send ---------- *)
+
+(* every request of a digest call is a request of its chain, or goes to the NAMED host *)
+Lemma digest_call_requests ps init hs targets s :
+  In s (fst (digest_call ps init hs targets)) ->
+  In s (fst (run_chain ps init hs targets)) \/ s_host s = init.
+Proof.
+  unfold digest_call. destruct (snd (run_chain ps init hs targets)); cbn [fst].
+  - intros H. apply in_app_or in H as [H|[<-|[]]]; [now left|now right].
+  - now left.
+Qed.
+
+(* ... so a host other than the named one gets a sensitive header only as the chain theorems allow:
+   the digest answer (and the caller's other headers with it) is never delivered there *)
+Lemma digest_call_sensitive ps init hs targets s n k :
+  is_sensitive n = true -> mem_bytes n (always_names ps) = false ->
+  In s (fst (digest_call ps init hs targets)) -> In (n, k) (s_hdrs s) -> k <> 0 ->
+  s_host s = init \/ should_copy init (s_host s) = true.
+Proof.
+  intros Hsens Hnot Hs Hin Hk. apply digest_call_requests in Hs as [Hs|Hs]; [|now left].
+  destruct (run_chain_head ps init hs targets) as [l Hl]. rewrite Hl in Hs.
+  destruct Hs as [<-|Hs]; [now left|].
+  assert (Ht : In s (tl (fst (run_chain ps init hs targets)))) by now rewrite Hl.
+  apply run_chain_tail_in_follow in Ht.
+  now destruct (follow_sensitive ps init hs n Hsens Hnot targets [init] false s k Ht Hin Hk).
+Qed.
+
+(* at most one request more than the chain, and only when the chain was not refused *)
+Lemma digest_call_refused ps init hs targets :
+  snd (run_chain ps init hs targets) = Refused ->
+  digest_call ps init hs targets = run_chain ps init hs targets.
+Proof. unfold digest_call. now intros ->. Qed.
+
+(* the d-m1 design delivers the digest answer and the caller's Cookie to a host only learned from
+   a redirect; the code's machine delivers neither *)
+Lemma digest_call_last_hop_refuted :
+  exists ps init hs targets s,
+    In s (fst (digest_call_last_hop ps init hs targets)) /\
+    s_host s <> init /\ should_copy init (s_host s) = false /\
+    In (bs "Authorization", 1) (s_hdrs s) /\ In (bs "Cookie", 1) (s_hdrs s) /\
+    (forall s', In s' (fst (digest_call ps init hs targets)) -> s_host s' <> init ->
+                In (bs "Authorization", 0) (s_hdrs s') /\ In (bs "Cookie", 0) (s_hdrs s')).
+Proof.
+  exists [PMax 3; PAllowedHost [bs "other.test"]], (bs "origin.test"),
+         [(bs "Authorization", 0); (bs "Cookie", 1)], [bs "other.test"].
+  eexists. split; [right; right; left; reflexivity|].
+  split; [vm_compute; discriminate|]. split; [reflexivity|].
+  split; [left; reflexivity|]. split; [right; left; reflexivity|].
+  intros s' Hs Hne. vm_compute in Hs.
+  destruct Hs as [<-|[<-|[<-|[]]]]; try (exfalso; apply Hne; reflexivity).
+  split; [left; reflexivity|right; left; reflexivity].
+Qed.
